@@ -31,7 +31,8 @@ inductive Node where
   | negation (pipeline : Node)
   | coproc (command : Node)
   | condExpr (body : Option Cond) (redirects : List Redir)
-  | arithCmd (expr : Option Arith) (redirects : List Redir)
+  /-- `raw` is Parable's `raw_content` (the text between `((` and `))`) -/
+  | arithCmd (expr : Option Arith) (raw : Option String) (redirects : List Redir)
   | comment
   | empty
   | other (kind : String)
